@@ -855,6 +855,61 @@ func (a *txnAnalyzer) checkT5(r *Result, s *txnSite, pos string) {
 		return true
 	})
 	if recObj == nil {
+		// the recording loop as a helper: `rec = appendKeys(rec, resps)` whose body appends every key of its map parameter
+		// to its slice parameter and returns that slice
+		commit.inspectBody(func(n ast.Node) bool {
+			as, ok := n.(*ast.AssignStmt)
+			if !ok || len(as.Lhs) != 1 || len(as.Rhs) != 1 || recObj != nil {
+				return true
+			}
+			c, ok := unparen(as.Rhs[0]).(*ast.CallExpr)
+			if !ok {
+				return true
+			}
+			H := p.ByObj[commit.Callee(c)]
+			if H == nil || H.Body == nil || H.Pkg != commit.Pkg {
+				return true
+			}
+			var hdst, hmap types.Object
+			for i, a := range c.Args {
+				switch commit.objOf(a) {
+				case resObj:
+					hmap = H.paramObj(i)
+				case commit.objOf(as.Lhs[0]):
+					hdst = H.paramObj(i)
+				}
+			}
+			if hdst == nil || hmap == nil {
+				return true
+			}
+			appends, returnsDst := false, true
+			inspectNoLit(H.Body, func(y ast.Node) bool {
+				switch z := y.(type) {
+				case *ast.RangeStmt:
+					if H.objOf(z.X) == hmap && z.Key != nil {
+						kobj := H.objOf(z.Key)
+						for _, st := range z.Body.List {
+							if a2, ok := st.(*ast.AssignStmt); ok && len(a2.Lhs) == 1 && len(a2.Rhs) == 1 && H.objOf(a2.Lhs[0]) == hdst {
+								if ac, ok := unparen(a2.Rhs[0]).(*ast.CallExpr); ok && isBuiltinCall(H, ac, "append") && len(ac.Args) == 2 && H.objOf(ac.Args[0]) == hdst && H.objOf(ac.Args[1]) == kobj {
+									appends = true
+								}
+							}
+						}
+					}
+				case *ast.ReturnStmt:
+					if len(z.Results) != 1 || H.objOf(z.Results[0]) != hdst {
+						returnsDst = false
+					}
+				}
+				return true
+			})
+			if appends && returnsDst {
+				recObj = commit.objOf(as.Lhs[0])
+			}
+			return true
+		})
+	}
+	if recObj == nil {
 		r.bad("T5", key, p.pos(fan), "commit fans "+eff.name+" out over the plugins but does not record which plugins answered when one fails")
 		return
 	}
